@@ -51,6 +51,27 @@ def build_fields(prog, t, what):
 
 
 def analyse(obs: Obs, prog):
+    # ---------------------------------------------------------------- the scan length is an Optional[int]: 0 is a length, None is "infer from xs"
+    # (a truthiness test - `length or ...`, `if length:` - sends an explicit length 0 down the inference path: scan(n=0) with xs=None raises IndexError)
+    import ast as _ast
+    _S = prog.cls("Scan", "combinators/scan.py")
+    n_opt = 0
+    for _mn, _fn in _S.methods.items():
+        opt = {a.arg for a in _fn.args.args + _fn.args.kwonlyargs if a.annotation is not None and _ast.unparse(a.annotation).replace(" ", "") in ("int|None", "None|int", "Optional[int]")}
+        if not opt:
+            continue
+        n_opt += 1
+        bad = []
+        for node in _ast.walk(_fn):
+            if isinstance(node, _ast.BoolOp):
+                bad += [v.id for v in node.values[:-1] if isinstance(v, _ast.Name) and v.id in opt] + ([node.values[-1].id] if isinstance(node.op, _ast.And) and isinstance(node.values[-1], _ast.Name) and node.values[-1].id in opt else [])
+            elif isinstance(node, (_ast.If, _ast.IfExp, _ast.While)) and isinstance(node.test, _ast.Name) and node.test.id in opt:
+                bad.append(node.test.id)
+            elif isinstance(node, _ast.UnaryOp) and isinstance(node.op, _ast.Not) and isinstance(node.operand, _ast.Name) and node.operand.id in opt:
+                bad.append(node.operand.id)
+        obs.add({"C12", "C02"}, "OPTIONAL-LENGTH", f"Scan.{_mn}", not bad, construct="truthiness test of an Optional[int] length",
+                derived=f"{sorted(set(bad))} tested by truth value: an explicit 0 is treated like None" if bad else "compared with `is None`", expected="`length if length is not None else <inferred>`", where=f"{_S.module.rel}:{_fn.lineno}")
+    obs.add({"C12"}, "FLOOR", "Scan/optional-length-sites", n_opt >= 1, derived=f"{n_opt} method(s) take an Optional[int] length", expected=">= 1 (Scan._static_scan_length)", where=f"{_S.module.rel}:{_S.node.lineno}")
     S = prog.cls("Scan", MOD)
     ST = prog.cls("ScanTrace", MOD)
     W = lambda c, m: f"{c.module.rel}:{c.methods[m].lineno}"
